@@ -82,6 +82,32 @@
 #define SKINNY_VEC256_MATH 0
 #endif
 
+#ifdef RWEATHER_SKINNY_C_VERIF
+/* Verification hook H1: allow the five platform switches to be overridden
+   from the compiler command line so that every compile-time path can be
+   built and checked on one host. */
+#ifdef SKINNY_VERIF_64BIT
+#undef SKINNY_64BIT
+#define SKINNY_64BIT SKINNY_VERIF_64BIT
+#endif
+#ifdef SKINNY_VERIF_UNALIGNED
+#undef SKINNY_UNALIGNED
+#define SKINNY_UNALIGNED SKINNY_VERIF_UNALIGNED
+#endif
+#ifdef SKINNY_VERIF_LITTLE_ENDIAN
+#undef SKINNY_LITTLE_ENDIAN
+#define SKINNY_LITTLE_ENDIAN SKINNY_VERIF_LITTLE_ENDIAN
+#endif
+#ifdef SKINNY_VERIF_VEC128_MATH
+#undef SKINNY_VEC128_MATH
+#define SKINNY_VEC128_MATH SKINNY_VERIF_VEC128_MATH
+#endif
+#ifdef SKINNY_VERIF_VEC256_MATH
+#undef SKINNY_VEC256_MATH
+#define SKINNY_VEC256_MATH SKINNY_VERIF_VEC256_MATH
+#endif
+#endif /* RWEATHER_SKINNY_C_VERIF */
+
 /* Attribute for declaring a vector type with this compiler */
 #if defined(__clang__)
 #define SKINNY_VECTOR_ATTR(words, bytes) __attribute__((ext_vector_type(words)))
